@@ -688,6 +688,26 @@ def _span_unpack(s):
     return out
 
 
+def _setdefault_stmt(s):
+    """if K not in D: D[K] = E      ->   D.setdefault(K, E)          (statement; later D[K] reads are unchanged)"""
+    if not (isinstance(s, ast.If) and not s.orelse and len(s.body) == 1):
+        return None
+    t = s.test
+    if not (isinstance(t, ast.Compare) and len(t.ops) == 1 and isinstance(t.ops[0], ast.NotIn)):
+        return None
+    K, D = t.left, t.comparators[0]
+    a = s.body[0]
+    if not (isinstance(a, ast.Assign) and len(a.targets) == 1 and isinstance(a.targets[0], ast.Subscript) and _same(a.targets[0].value, D) and _same(a.targets[0].slice, K)):
+        return None
+    if not isinstance(K, ast.Name | ast.Attribute | ast.Constant | ast.Tuple):
+        return None
+    call = ast.Call(func=ast.Attribute(value=D, attr="setdefault", ctx=ast.Load()), args=[K, a.value], keywords=[])
+    new = ast.Expr(value=call)
+    for x in (new, call, call.func):
+        ast.copy_location(x, s)
+    return new
+
+
 def _cond_value(fn, s1, s2):
     """v = A if c else B ; <simple statement using v exactly once, v used nowhere else>
          ->  if c: <statement with A> else: <statement with B>"""
@@ -840,7 +860,7 @@ def normalise_idioms(tree) -> int:
             if not isinstance(blk, list) or not all(isinstance(x, ast.stmt) for x in blk):
                 continue
             for k, st in enumerate(blk):
-                new = _dict_get(st)
+                new = _dict_get(st) or _setdefault_stmt(st)
                 if new is not None:
                     blk[k] = new
                     n += 1
